@@ -1,7 +1,7 @@
 """C05 Spectral binning is an overlap-weighted mean of the native spectrum."""
 import ast
 
-from sa.helpers import (mkflow, spec, code, one, calls, bind_call, param_env,
+from sa.helpers import (the_return, mkflow, spec, code, one, calls, bind_call, param_env,
                         loop_matches, fmt, atom_of, unparse, unalloc, call_kw)
 from sa.index import AnalysisError
 from sa.algebra import RF, Slice, p_atom
@@ -169,7 +169,7 @@ def flux_bindown(ix, R):
     # ---- stores of results
     sts = [e for e in fl.of('store') if len(e.loops) == 1]
     # the buffers are identified by their role in the returned tuple (grid, spectrum, error, width)
-    r0 = one(fl.of('return'), 'return')
+    r0 = the_return(fl)
     ra0 = atom_of(fl, r0.value)
     if ra0 is None or ra0.head != 'tuple' or len(ra0.args) != 4:
         R.fail('4.roles.flux', 'SIB', site, 'bindown returns (grid, spectrum, error, width)',
@@ -279,7 +279,7 @@ def flux_bindown(ix, R):
             loc=f.loc(fs.node), extracted=fmt(fl, fs.value))
     # the flux store runs for every bin that is not skipped; the output starts as zeros of shape (..., n_target)
     whyf = []
-    skipg = [g for g in fs.guards if not g.early]
+    skipg = [g for g in fs.guards if not (g.early and g.exit == {'continue'})]
     if skipg:
         whyf.append('flux store is conditional on %s' % [g.text() for g in skipg])
     for buf in [fbuf] + ebufs:
@@ -301,7 +301,7 @@ def flux_bindown(ix, R):
     for w_ in wantes:
         if tab.equal(es.value, w_):
             wante = w_
-    g_ok = all(g.early or any(tab.equal(g.rf, spec(fl, 'Er is not None', dict(b, Er=c)))
+    g_ok = all((g.early and g.exit == {'continue'}) or any(tab.equal(g.rf, spec(fl, 'Er is not None', dict(b, Er=c)))
                               for c in cands + [b['E']]) for g in es.guards)
     sl = es.target_ast.slice
     lastaxis = isinstance(sl, ast.Tuple) and len(sl.elts) == 2 and \
@@ -336,7 +336,7 @@ def flux_bindown(ix, R):
             lp.kind == 'enumerate' and len(lp.iter_ast.args[0].args) == 3, key=unparse(lp.iter_ast),
             detail='loop is %s' % unparse(lp.iter_ast), loc=f.loc(lp.node))
     # return roles
-    r = one(fl.of('return'), 'return')
+    r = the_return(fl)
     want = tab.atom('tuple', (code(fl, 'self._wngrid'), atom_base(fl, fs.target),
                               atom_base(fl, es.target), code(fl, 'self._wngrid_width')))
     ra = atom_of(fl, r.value)
@@ -374,7 +374,7 @@ def _run(ix, R):
         f = ix.func(site)
         fl = mkflow(ix, site)
         pe = param_env(fl, f, ['g', 'S', 'w', 'E'])
-        r = one(fl.of('return'), 'return')
+        r = the_return(fl)
         want = spec(fl, '(self._wngrid, bindown(g, S, self._wngrid), None, self._wn_width)', pe)
         R.check('4.roles.simple', 'SIB', site,
                 'returns (target grid, histogram mean of (native grid, spectrum) onto the target grid, None, widths)',
@@ -390,7 +390,7 @@ def _run(ix, R):
         f = ix.func(site)
         fl = mkflow(ix, site)
         pe = param_env(fl, f, ['g', 'S', 'w', 'E'])
-        r = one(fl.of('return'), 'return')
+        r = the_return(fl)
         R.check('4.roles.native', 'SIB', site, 'native binner returns its input unchanged: (grid, spectrum, error, width)',
                 fl.tab.equal(r.value, spec(fl, '(g, S, E, w)', pe)), key='returns %s' % fmt(fl, r.value),
                 detail='returns %s' % fmt(fl, r.value), loc=f.loc(r.node))
@@ -407,7 +407,7 @@ def _run(ix, R):
         f = ix.func(site)
         fl = mkflow(ix, site)
         pe = param_env(fl, f, ['m'])
-        r = one(fl.of('return'), 'return')
+        r = the_return(fl)
         R.check('4.bin_model', 'ARG', site, 'bin_model(out) = bindown(out[0] grid, out[1] spectrum)',
                 fl.tab.equal(r.value, spec(fl, 'self.bindown(m[0], m[1])', pe)),
                 key='returns %s' % fmt(fl, r.value), detail='returns %s' % fmt(fl, r.value), loc=f.loc(r.node))
@@ -434,7 +434,7 @@ def _run(ix, R):
         f = ix.func(site)
         fl = mkflow(ix, site)
         pe = param_env(fl, f, ['g'])
-        r = one(fl.of('return'), 'return')
+        r = the_return(fl)
         edges = spec(fl, 'concatenate([[g[0]-(g[1]-g[0])/2], g[:-1] + diff(g)/2, [(g[-1]-g[-2])/2 + g[-1]]])', pe)
         want = fl.tab.atom('tuple', (edges, spec(fl, 'abs(diff(E))', {'E': edges})))
         R.check('5.edges', 'ALG', site, stmt, fl.tab.equal(r.value, want), key='returns %s' % fmt(fl, r.value),
